@@ -76,7 +76,7 @@ def read_atom(tree, body):
     m = re.fullmatch(r"from_byte\(buffer\[(\d+)\]\)", s)
     if m:
         return ("version", int(m.group(1)))
-    m = re.fullmatch(r"(?:branch\()?try_into\(bitand\(buffer\[(\d+)\], 15\)\)\)?", s)
+    m = re.fullmatch(r"(?:branch\()?try_(?:into|from)\(bitand\(buffer\[(\d+)\], 15\)\)\)?", s)
     if m:
         return ("lo4", int(m.group(1)))
     m = re.fullmatch(r"SdoId\(bitor\(shl\(cast<u16>\(bitand\(buffer\[(\d+)\], 240\)\), 4\), cast<u16>\(buffer\[(\d+)\]\)\)\)", s)
